@@ -410,6 +410,7 @@ NAME_POOLS = {
     "special": ["a.b", "(", "+", "a b", "a'", "0", "a1", "a", "10", "-"],
 }
 SEPS = ["/", "\\", "-", ".", "|"]
+MULTI_SEPS = ["->", "::", "=>", "//", "-|-"]   # separators of more than one character (C03)
 
 
 class Shadow:
@@ -469,6 +470,14 @@ def gen_case(rng, prop, cls=None, fault_rate=0.1, invalid_rate=0.15, nmax=8, max
     sep_pool = SEPS
     if prop == "C03":   # the property quantifies over separators that do not occur inside a name
         sep_pool = [c for c in SEPS if not any(c in nm for nm in names)]
+        if rng.random() < 0.35:
+            # multi-character separators: mostly inside the theorems' guard (no character of the separator in
+            # any name: C03_lookup_roundtrip_multi_partial), sometimes only substring-free (K3 territory)
+            free = [sp for sp in MULTI_SEPS if not any(ch in nm for ch in sp for nm in names)]
+            sub = [sp for sp in MULTI_SEPS if not any(sp in nm for nm in names)]
+            multi = free if (free and rng.random() < 0.85) else sub
+            if multi:
+                sep_pool = multi
     seps = [rng.choice(sep_pool)] * n if rng.random() < 0.7 else [rng.choice(sep_pool) for _ in range(n)]
     sh = Shadow(n)
     ops = []
@@ -653,7 +662,10 @@ def corpus(prop):
 
 def matches_finding(prop, entry, case, obs, flags):
     if prop == "C03" and entry.get("id") == "K3-C03":
-        return flags == 2 and any(len(sp) >= 2 for sp in case["seps"])
+        # narrow: some name starts or ends with a character of a multi-character separator in use
+        seps = set(case["seps"]) | {op[2] for op in case["ops"] if op and op[0] == "SetSep"}
+        return flags == 2 and any(len(sp) >= 2 and nm and (nm[0] in sp or nm[-1] in sp)
+                                  for sp in seps for nm in case["names"])
     return False
 
 
